@@ -16,6 +16,7 @@ pub fn run(id: &str) -> Result<String, String> {
         "F26" => f26(),
         "F27" => f27(),
         "F28" => f28(),
+        "F29" => f29(),
         _ => Err(format!("unknown witness {id}")),
     }
 }
@@ -346,4 +347,46 @@ fn f28() -> Result<String, String> {
     }
     if !bad.is_empty() { return Err(format!("fasta Reader::query returns bytes of the NEXT record for a start beyond the sequence end: {}", bad.join("; "))); }
     Ok(format!("\"cases\":{n}"))
+}
+
+/// F29: a mapped record whose CIGAR consumes no reference bases (4S, 4I) must be written by the CRAM writer and read back
+/// (it panicked with overflow checks and wrote an unreadable alignment span of 0 without them)
+fn f29() -> Result<String, String> {
+    use noodles_sam as sam;
+    use sam::alignment::io::Write as _;
+    use sam::alignment::record::cigar::{Op, op::Kind};
+    use sam::alignment::record_buf::{Cigar, Sequence, QualityScores};
+    use std::num::NonZero;
+    let header = sam::Header::builder()
+        .add_reference_sequence("sq0", sam::header::record::value::Map::<sam::header::record::value::map::ReferenceSequence>::new(NonZero::new(100usize).unwrap()))
+        .build();
+    let mut bad = Vec::new();
+    for (what, pos, cigar) in [("4S at 5", 5usize, vec![Op::new(Kind::SoftClip, 4)]), ("4I at 5", 5, vec![Op::new(Kind::Insertion, 4)]), ("4S at 1", 1, vec![Op::new(Kind::SoftClip, 4)]), ("4M at 5", 5, vec![Op::new(Kind::Match, 4)])] {
+        let h = header.clone();
+        let r = std::panic::catch_unwind(move || -> Result<usize, String> {
+            let rec = sam::alignment::RecordBuf::builder()
+                .set_name("r0").set_flags(sam::alignment::record::Flags::empty()).set_reference_sequence_id(0)
+                .set_alignment_start(noodles_core::Position::new(pos).unwrap())
+                .set_cigar(Cigar::from(cigar)).set_sequence(Sequence::from(b"ACGT".to_vec())).set_quality_scores(QualityScores::from(vec![30, 30, 30, 30]))
+                .build();
+            let repo = noodles_fasta::Repository::new(vec![noodles_fasta::Record::new(noodles_fasta::record::Definition::new("sq0", None), noodles_fasta::record::Sequence::from(vec![b'A'; 100]))]);
+            let mut w = noodles_cram::io::writer::Builder::default().set_reference_sequence_repository(repo.clone()).build_from_writer(Vec::new());
+            w.write_header(&h).map_err(|e| format!("write_header: {e}"))?;
+            w.write_alignment_record(&h, &rec).map_err(|e| format!("write: {e}"))?;
+            w.try_finish(&h).map_err(|e| format!("finish: {e}"))?;
+            let data = w.get_ref().clone();
+            let mut rd = noodles_cram::io::reader::Builder::default().set_reference_sequence_repository(repo).build_from_reader(&data[..]);
+            let h2 = rd.read_header().map_err(|e| format!("read_header: {e}"))?;
+            let mut n = 0;
+            for r in rd.records(&h2) {
+                let r = r.map_err(|e| format!("read: {e}"))?; n += 1;
+                if r.alignment_start() != rec.alignment_start() || r.cigar() != rec.cigar() || r.sequence() != rec.sequence() || r.reference_sequence_id() != rec.reference_sequence_id() {
+                    return Err(format!("read back a different record: {:?} {:?}", r.alignment_start(), r.cigar()));
+                }
+            }
+            Ok(n)
+        });
+        match r { Err(_) => bad.push(format!("{what}: PANIC")), Ok(Err(e)) => bad.push(format!("{what}: {e}")), Ok(Ok(1)) => {}, Ok(Ok(n)) => bad.push(format!("{what}: {n} records")) }
+    }
+    if bad.is_empty() { Ok("\"cases\":4".into()) } else { Err(bad.join("; ")) }
 }
